@@ -295,12 +295,13 @@ fn lex_and_parse_number<N: FromLexicalWithOptions, const FORMAT: u128>(
             lexical::parse_partial_with_options::<N, _, FORMAT>(input, options)?;
 
         // There appears to be a bug in lexical where in `0b.`, `0b` is parsed as the integer `0`
-        // even though `.` is not consumed.  This check is a workaround for that.
+        // even though `.` is not consumed; likewise for `0b_`, where only digit separators follow
+        // the base prefix.  This check is a workaround for that: at least one digit is required.
         if const {
             NumberFormatBuilder::rebuild(FORMAT)
                 .get_base_prefix()
                 .is_some()
-        } && len == 2
+        } && input.as_bytes()[..len].iter().skip(2).all(|&b| b == b'_')
         {
             return Err(lexical::Error::EmptyInteger(2));
         }
